@@ -65,6 +65,19 @@ class _FakeComm(object):
         if res is not buf:
             buf[...] = res
 
+    def Allgather(self, sendbuf, recvbuf):
+        # buffer collective: every rank's raw memory (in memory order, as the
+        # buffer protocol exposes it) lands back to back in recvbuf's memory
+        a = np.asarray(sendbuf)
+        if not (a.flags.c_contiguous or a.flags.f_contiguous):
+            raise ValueError('ndarray is not contiguous')
+        parts = self._w.allgather(a.tobytes(order='A'))
+        out = np.asarray(recvbuf)
+        if not out.flags.c_contiguous:
+            raise ValueError('receive buffer is not C-contiguous')
+        flat = np.frombuffer(b''.join(parts), dtype=out.dtype)
+        out.reshape(-1)[...] = flat
+
     def Barrier(self):
         return self._w.barrier()
 
